@@ -174,7 +174,26 @@ return ok
 """
         out.append(mk_case(f"c18.add.cast_and_doc.{root}", [("t", "int"), ("u1", "Union[int, bool, None]"), ("u2", "int")], body,
                            pre=[f"BU({L}, t, u1, u2)"], stubs=["sym_repr"]))
-    body = f"""
+    for part in ("two_schemas", "clone"):
+        tail = {
+            "two_schemas": """
+S1.add_schema(T, build_path(R))
+ok = same('S1 extended', observed(S1.validate(doc)), expected(S_T, [(R, T_T)], doc))
+ok = ok and same('S2 (built from the same list) unaffected', observed(S2.validate(doc)), expected(S_T, [], doc)) and note('S2 rule count', len(S2.rules) == 2)
+ok = ok and note('the list handed in is unaffected', len(base) == 2 and len(t_list) == 2)
+return ok
+""",
+            "clone": """
+clone = Schema(list(T.rules)) if False else Schema(T.rules)
+other = Schema(build(T_T))
+clone.add_schema(other, build_path(R))
+ok = same('clone extended', observed(clone.validate(doc)), expected(T_T, [(R, T_T)], doc))
+ok = ok and same('T unaffected by extending its clone', observed(T.validate(doc['a'])), expected(T_T, [], doc['a'])) and note('T rule count', len(T.rules) == 2 and len(T2.rules) == 2)
+ok = ok and note('the list handed in is unaffected', len(t_list) == 2)
+return ok
+""",
+        }[part]
+        body = f"""
 {expect_block()}
 S_T = {terms_src(S_RULES, ['sp', 'sab'])}
 T_T = {terms_src(T_RULES, ['tp', 'tq'])}
@@ -184,16 +203,9 @@ base = build(S_T)
 S1, S2 = Schema(base), Schema(base)
 t_list = build(T_T)
 T, T2 = Schema(t_list), Schema(t_list)
-clone = Schema(T.rules)
-S1.add_schema(T, build_path(R))
-ok = same('S1 extended', observed(S1.validate(doc)), expected(S_T, [(R, T_T)], doc))
-ok = ok and same('S2 (built from the same list) unaffected', observed(S2.validate(doc)), expected(S_T, [], doc)) and note('S2 rule count', len(S2.rules) == 2)
-ok = ok and note('the list handed in is unaffected', len(base) == 2 and len(t_list) == 2)
-clone.add_schema(T2, build_path(R))
-ok = ok and same('T unaffected by extending its clone', observed(T.validate(doc['a'])), expected(T_T, [], doc['a'])) and note('T rule count', len(T.rules) == 2 and len(T2.rules) == 2)
-return ok
+{tail}
 """
-    out.append(mk_case("c18.seq.shared_rule_list", [("t", "int"), ("u1", U), ("u2", "int")], body, pre=[f"BU({L}, t, u1, u2)"], stubs=["sym_repr"]))
+        out.append(mk_case(f"c18.seq.shared_rule_list.{part}", [("t", "int"), ("u1", U), ("u2", "int")], body, pre=[f"BU({L}, t, u1, u2)"], stubs=["sym_repr"]))
     # the root is a prefix of T's own rule paths; an already combined schema added again under the same name
     body = f"""
 {expect_block()}
